@@ -1145,16 +1145,19 @@ static const char* errno_name(int e) {
   return e == 0 ? "0" : e == EILSEQ ? "EILSEQ" : e == ERANGE ? "ERANGE" : e == EINVAL ? "EINVAL" : e == ENOMEM ? "ENOMEM" : "other";
 }
 
-static void printf_check(const char* fn, const char* what, int stale, bool threw, const string& threw_what, const string& got, const string& want) {
+// `errno_dependent`: the same case was right with errno == 0, so the stale value is part of the witness class
+static bool printf_check(const char* fn, const char* what, int stale, bool errno_dependent, bool threw, const string& threw_what, const string& got, const string& want) {
   C->evaluations++;
+  if (!threw && got == want) return true;
   if (threw)
-    C->violation(fmt("%s:throws-on-valid-input:stale-errno=%s", fn, errno_name(stale)), "a valid call threw: " + threw_what,
+    C->violation(fmt("%s:throws-on-valid-input%s", fn, errno_dependent ? fmt(":stale-errno=%s", errno_name(stale)).c_str() : ""), "a valid call threw: " + threw_what,
         fmt("errno = %s; %s(%s): expected %zu bytes", errno_name(stale), fn, what, want.size()));
-  else if (got != want)
-    C->violation(fmt("%s:%s%s", fn, len_class(want.size()), stale ? fmt(":stale-errno=%s", errno_name(stale)).c_str() : ""),
+  else
+    C->violation(fmt("%s:%s%s", fn, len_class(want.size()), errno_dependent ? fmt(":stale-errno=%s", errno_name(stale)).c_str() : ""),
         "result differs from vsnprintf into an exact-size buffer",
         fmt("errno = %s; %s(%s): got %zu bytes %s, expected %zu bytes %s", errno_name(stale), fn, what, got.size(), esc(got, 40).c_str(), want.size(),
             esc(want, 40).c_str()));
+  return false;
 }
 
 #pragma GCC diagnostic push
@@ -1182,6 +1185,7 @@ static void printf_part(vf::Rng& r) {
   do {                                                                                                 \
     string want = R::format_exact(__VA_ARGS__);                                                        \
     string what = fmt("%s, L=%zu", desc, L);                                                           \
+    bool ok0 = false, okv0 = false;                                                                    \
     for (int stale : STALE_ERRNO) {                                                                    \
       string got, why;                                                                                 \
       bool threw = false;                                                                              \
@@ -1192,7 +1196,8 @@ static void printf_part(vf::Rng& r) {
         threw = true;                                                                                  \
         why = e.what();                                                                                \
       }                                                                                                \
-      printf_check("string_printf", what.c_str(), stale, threw, why, got, want);                       \
+      bool ok = printf_check("string_printf", what.c_str(), stale, stale && ok0, threw, why, got, want); \
+      if (!stale) ok0 = ok;                                                                            \
       threw = false;                                                                                   \
       try {                                                                                            \
         errno = stale;                                                                                 \
@@ -1201,7 +1206,8 @@ static void printf_part(vf::Rng& r) {
         threw = true;                                                                                  \
         why = e.what();                                                                                \
       }                                                                                                \
-      printf_check("string_vprintf", what.c_str(), stale, threw, why, got, want);                      \
+      ok = printf_check("string_vprintf", what.c_str(), stale, stale && okv0, threw, why, got, want);  \
+      if (!stale) okv0 = ok;                                                                           \
       C->cls(fmt("printf:errno-%s:%s", errno_name(stale), len_class(want.size())));                    \
     }                                                                                                  \
   } while (0)
@@ -1239,7 +1245,7 @@ static wstring wformat_ref(size_t cap, const wchar_t* f, ...) {
   return buf;
 }
 
-static void wprintf_check(const string& what, size_t fmt_len, int stale, bool threw, const string& threw_what, const wstring& got, const wstring& want) {
+static bool wprintf_check(const string& what, size_t fmt_len, int stale, bool errno_dependent, bool threw, const string& threw_what, const wstring& got, const wstring& want) {
   C->evaluations++;
   // input shape relative to the format length (2*len and 2*len+16 are first guesses an implementation is likely to make)
   const char* fit = want.size() <= fmt_len ? "result-not-longer-than-format"
@@ -1252,14 +1258,15 @@ static void wprintf_check(const string& what, size_t fmt_len, int stale, bool th
         "wstring_vprintf retries vswprintf in a way that can never succeed (it would spin forever without the monitor)",
         pre + fmt("wstring_printf(%s): expected %zu wide chars; %u vswprintf attempts observed", what.c_str(), want.size(), W.calls));
   else if (threw)
-    C->violation(fmt("wstring_printf:throws-on-valid-input:stale-errno=%s", errno_name(stale)), "a valid call threw: " + threw_what,
+    C->violation(fmt("wstring_printf:throws-on-valid-input%s", errno_dependent ? fmt(":stale-errno=%s", errno_name(stale)).c_str() : ""), "a valid call threw: " + threw_what,
         pre + fmt("wstring_printf(%s): expected %zu wide chars %s; %u vswprintf attempts observed", what.c_str(), want.size(), esc(want, 30).c_str(), W.calls));
   else if (got != want)
-    C->violation(fmt("wstring_printf:value:%s%s", fit, stale ? fmt(":stale-errno=%s", errno_name(stale)).c_str() : ""),
+    C->violation(fmt("wstring_printf:value:%s%s", fit, errno_dependent ? fmt(":stale-errno=%s", errno_name(stale)).c_str() : ""),
         "result differs from vswprintf into a large enough buffer",
         pre + fmt("wstring_printf(%s): got %zu chars %s, expected %zu chars %s", what.c_str(), got.size(), esc(got, 30).c_str(), want.size(), esc(want, 30).c_str()));
   C->cls(fmt("wprintf:%s:%s", fit, len_class(want.size())));
   C->cls(fmt("wprintf:errno-%s:%s", errno_name(stale), fit));
+  return !W.verdict && !threw && got == want;
 }
 
 static void wprintf_part() {
@@ -1286,6 +1293,7 @@ static void wprintf_part() {
   do {                                                                                                   \
     wstring want = wformat_ref(cap, __VA_ARGS__);                                                        \
     string what = fmt("%s, L=%zu", desc, L);                                                             \
+    bool ok0 = false;                                                                                    \
     for (int stale : STALE_ERRNO) {                                                                      \
       C->crumb("errno=%s wstring_printf(%s) L=%zu", errno_name(stale), desc, L);                         \
       W = WMon();                                                                                        \
@@ -1301,7 +1309,8 @@ static void wprintf_part() {
         why = e.what();                                                                                  \
       }                                                                                                  \
       W.active = false;                                                                                  \
-      wprintf_check(what, wcslen(WPF_FIRST(__VA_ARGS__)), stale, threw, why, got, want);                 \
+      bool ok = wprintf_check(what, wcslen(WPF_FIRST(__VA_ARGS__)), stale, stale && ok0, threw, why, got, want); \
+      if (!stale) ok0 = ok;                                                                              \
     }                                                                                                    \
   } while (0)
     WPF("L\"%ls\", wstr(L)", L"%ls", a.c_str());
